@@ -76,6 +76,8 @@ def regQueries (r : Req) : List Path :=
 
 inductive Item where
   | handle (target : String) (key : Path) (last : Noti)   -- a `*ctree.Leaf` of the cache
+  | detached (target : String) (key : Path) (last : Noti) -- a queued cache leaf that has since been deleted:
+                                                           -- it keeps its last value and coalesces with nothing
   | note (e : Event)                                       -- a detached leaf (delete notification)
   | sync
 deriving DecidableEq, Repr, Inhabited
@@ -105,6 +107,7 @@ deriving Repr, Inhabited
 structure State where
   cache : Cache.State := {}
   subs : List Subscriber := []
+  pregated : List String := []   -- ids whose stream starts with flow control already shut
 deriving Repr, Inhabited
 
 /-! ### what a notification is offered to (`Server.Update` → `UpdateNotification` → `match`) -/
@@ -173,6 +176,7 @@ def respTarget : Resp → Option String
 
 def toResp : Item × Nat → Resp
   | (.handle _ _ n, d) => .upd n d
+  | (.detached _ _ n, d) => .upd n d
   | (.note (.del t o p ts), d) => .del t o p ts d
   | (.note (.upd n), d) => .upd n d
   | (.sync, _) => .sync
@@ -226,6 +230,10 @@ def doWalk (c : Cache.State) (s : Subscriber) : Subscriber :=
     let q := items.foldl (fun q it => insertHandle q it.1 it.2.1 it.2.2) s.queue
     { s with queue := insertSync q }
 
+/-- the state of a freshly accepted subscription (`gated`: its stream starts with flow control shut) -/
+def newSubscriber (gated : Bool) (id : String) (r : Req) (acl : Acl) : Subscriber :=
+  { id := id, req := r, acl := acl, gateShut := gated, gatedSinceDrain := gated }
+
 /-- `Server.Subscribe` up to the point where the goroutines run -/
 def subscribe (st : State) (id : String) (acl : Acl) (firstRecv : Option Req) : State :=
   let ended (c : Code) : State :=
@@ -242,7 +250,7 @@ def subscribe (st : State) (id : String) (acl : Acl) (firstRecv : Option Req) : 
       else if !st.cache.hasTarget r.target then ended .notFound
       else if r.target ≠ "*" ∧ !acl.check r.target then ended .permissionDenied
       else
-        let s : Subscriber := { id := id, req := r, acl := acl }
+        let s : Subscriber := newSubscriber (st.pregated.contains id) id r acl
         match r.mode with
         | .once =>
           let s := doWalk st.cache s
@@ -278,11 +286,18 @@ def refreshQueue (c : Cache.State) : List (Item × Nat) → List (Item × Nat)
       | _ => it
     (it', d) :: refreshQueue c rest
 
+/-- a delete detaches the leaf objects it removes: handles to them that are still queued — in any
+subscriber's queue, whether or not the delete is offered to it — keep their last value -/
+def freezeCovered (e : Event) (q : List (Item × Nat)) : List (Item × Nat) :=
+  q.map (fun x => match x.1 with
+    | .handle t k last => if coversKey e t k then (Item.detached t k last, x.2) else x
+    | _ => x)
+
 /-- a cache operation produced `events`: offer them to every live STREAM subscriber, then let
 the senders run -/
 def feed (st : State) (events : List Event) : State :=
   { st with subs := st.subs.map (fun s =>
-      let s := events.foldl enqueueEvent s
+      let s := events.foldl (fun s e => enqueueEvent { s with queue := freezeCovered e s.queue } e) s
       pumpAll { s with queue := refreshQueue st.cache s.queue }) }
 
 /-- `Server.Subscribe` with a cache operation placed by the harness (schedule hooks) at the
@@ -304,7 +319,7 @@ def subscribeInject (st : State) (id : String) (acl : Acl) (firstRecv : Option R
       | .other => false
     if !(accepted && walks) then (plain, false)
     else
-      let s : Subscriber := { id := id, req := r, acl := acl }
+      let s : Subscriber := newSubscriber (st.pregated.contains id) id r acl
       let s := if r.mode = .stream then { s with regs := regQueries r } else s
       if atStart then
         let c := inject st.cache
